@@ -40,6 +40,7 @@ where
     let mut responses = vec![];
     for (method, path) in requests
     {
+        if method == "BIG" { responses.push((0, vec![])); continue; }
         if method == "OP"
         {
             // a build or clean runs against the same ruler directory while this server stays up
